@@ -133,6 +133,8 @@ def charged_sum(run, rule, ci, fn0, mean, energy_fn):
                 for st in ast.walk(main):
                     if isinstance(st, ast.Assign) and isinstance(st.targets[0], ast.Name) and st.targets[0].id == n_.id:
                         work.append(st.value)
+                    elif isinstance(st, ast.AnnAssign) and st.value is not None and isinstance(st.target, ast.Name) and st.target.id == n_.id:
+                        work.append(st.value)        # a typed local with an initialiser (cdef Vector3D v = ...)
     alltxt = ' '.join(seen_txt)
     e_ok = energy_fn + '(' in alltxt and '.bulk_velocity(' in alltxt and bv in seen_names
     args_ok = a[1].eq(L('DS') / Z) and a[2].eq(T) and e_ok
